@@ -263,7 +263,8 @@ Proof.
   unfold bp_core. destruct i as [m| | | |sent r].
   - destruct (b_mode st); try (cbn; discriminate). destruct (b_wait st); try (cbn; discriminate). intros _.
     destruct (is_syn m) eqn:Es; [cbn [fst snd]; rewrite sh_cons; cbn [shape_ok]; rewrite (syn_not_data _ Es); reflexivity|].
-    destruct (needs_retry st m); [cbn [fst snd]; rewrite sh_cons, sh_retry_msg; reflexivity|apply recv_data_shape].
+    destruct (needs_retry st m); [cbn [fst snd]; rewrite sh_cons, sh_retry_msg; reflexivity|].
+    destruct (is_fin m); [cbn [fst snd]; rewrite sh_cons, sh_retry_msg; reflexivity|apply recv_data_shape].
   - intros _. destruct (b_mode st), (b_wait st); reflexivity.
   - intros _. destruct (b_timer st && flush_poll st); reflexivity.
   - intros _. destruct (flush_enabled st); [|reflexivity].
@@ -379,7 +380,7 @@ Proof.
   assert (HX : no_new (snd (fst (bp_core c ep st i))) = true); [|destruct (bp_core c ep st i) as [[st' effs] upd]; exact HX].
   unfold bp_core. destruct i as [m| | | |sent r].
   - destruct (b_mode st); try reflexivity. destruct (b_wait st); try reflexivity.
-    destruct (is_syn m); [reflexivity|]. destruct (needs_retry st m); [apply nn_retry_msg|apply nn_recv_data].
+    destruct (is_syn m); [reflexivity|]. destruct (needs_retry st m); [apply nn_retry_msg|]. destruct (is_fin m); [apply nn_retry_msg|apply nn_recv_data].
   - destruct (b_mode st), (b_wait st); reflexivity.
   - destruct (b_timer st && flush_poll st); reflexivity.
   - destruct (flush_enabled st); [|reflexivity]. destruct (b_wait st) as [|m|m]; [reflexivity| |].
